@@ -249,6 +249,7 @@ const PATTERN_FIRST: TokenSet = expressions::LITERAL_FIRST
         T![&],
         T![_],
         T![-],
+        T![~],
         T![.],
     ]));
 
